@@ -176,7 +176,7 @@ NO_KWARGS = ('recast',)
 def budget(tier):
     if tier == 'quick':
         return {'cases': 16000, 'wall_cap_s': 240}
-    return {'cases': 240000, 'wall_cap_s': 1500}
+    return {'cases': 500000, 'wall_cap_s': 1500}
 
 
 def _tables(rng, op, maxrows):
